@@ -504,7 +504,7 @@ fn size_update(n: usize) -> Vec<u8> {
 /// one local setting that reaches the HPACK decoder: a server that advertises SETTINGS_HEADER_TABLE_SIZE = size receives a
 /// request whose header block starts with a table size update u - before the peer has acknowledged the server's SETTINGS
 /// (the default 4096 is still the bound) and after (size is the bound).
-pub fn local_table_size_one(size: u32, u: usize, acked: bool, verbose: bool) -> Vec<(String, String, String)> {
+pub fn local_table_size_one(size: u32, u: usize, u2: Option<usize>, acked: bool, verbose: bool) -> Vec<(String, String, String)> {
     let mut v = vec![];
     let mut sb = h2::server::Builder::new();
     sb.header_table_size(size);
@@ -516,6 +516,9 @@ pub fn local_table_size_one(size: u32, u: usize, acked: bool, verbose: bool) -> 
         t.drive(100);
     }
     let mut block = size_update(u);
+    if let Some(u2) = u2 {
+        block.extend(size_update(u2));
+    }
     block.extend(T2::block(&[(":method", "GET"), (":scheme", "http"), (":authority", "h.example"), (":path", "/t")]));
     t.peer_send(&wf::headers(1, &block, true, true));
     t.drive(100);
@@ -523,8 +526,8 @@ pub fn local_table_size_one(size: u32, u: usize, acked: bool, verbose: bool) -> 
     let bound = if acked { size as usize } else { 4096 };
     let accepted = t.accepted.iter().any(|a| a.sid == 1);
     let goaway = t.goaway_sent();
-    let label = format!("advertised {} ({}), size update {}", size, if acked { "acknowledged by the peer" } else { "not yet acknowledged" }, u);
-    if u <= bound {
+    let label = format!("advertised {} ({}), size update {}{}", size, if acked { "acknowledged by the peer" } else { "not yet acknowledged" }, u, u2.map(|x| format!(" then {}", x)).unwrap_or_default());
+    if u.max(u2.unwrap_or(0)) <= bound {
         if !accepted || goaway.is_some() {
             v.push(("C14.local-table-size".to_string(), format!("legal-update-rejected:{}", if acked { "acked" } else { "unacked" }), format!("{}: the update is within the bound in force ({}), yet the request was not delivered (GOAWAY {:?}, connection {:?})", label, bound, goaway, t.conn_result)));
         }
@@ -542,7 +545,7 @@ pub fn local_table_size_one(size: u32, u: usize, acked: bool, verbose: bool) -> 
 
 /// The same rule with the real *client* as the subject: it advertises SETTINGS_HEADER_TABLE_SIZE = size, the peer acknowledges,
 /// and the response's header block starts with a table size update u.
-pub fn local_table_size_client_one(size: u32, u: usize, verbose: bool) -> Vec<(String, String, String)> {
+pub fn local_table_size_client_one(size: u32, u: usize, u2: Option<usize>, verbose: bool) -> Vec<(String, String, String)> {
     use std::future::Future;
     let mut v = vec![];
     let mut cb = h2::client::Builder::new();
@@ -562,7 +565,7 @@ pub fn local_table_size_client_one(size: u32, u: usize, verbose: bool) -> Vec<(S
         sr.send_request(simple_request("/t", false), true).ok()
     })
     .flatten();
-    let label = format!("client advertised {} (acknowledged by the peer), size update {} at the start of the response", size, u);
+    let label = format!("client advertised {} (acknowledged by the peer), size update {}{} at the start of the response", size, u, u2.map(|x| format!(" then {}", x)).unwrap_or_default());
     let Some((mut rf, _ss)) = sent else {
         v.push(("C14.local-table-size".to_string(), "client-request-not-sent".to_string(), format!("{}: the request could not be sent (connection {:?}, {:?})", label, t.conn_result, panics)));
         t.panics.extend(panics);
@@ -573,6 +576,9 @@ pub fn local_table_size_client_one(size: u32, u: usize, verbose: bool) -> Vec<(S
     };
     t.drive(100);
     let mut block = size_update(u);
+    if let Some(u2) = u2 {
+        block.extend(size_update(u2));
+    }
     block.extend(T2::block(&[(":status", "200")]));
     t.peer_send(&wf::headers(1, &block, true, true));
     t.drive(100);
@@ -581,7 +587,7 @@ pub fn local_table_size_client_one(size: u32, u: usize, verbose: bool) -> Vec<(S
     let delivered = matches!(&r, Some(Poll::Ready(Ok(resp))) if resp.status().as_u16() == 200);
     let goaway = t.goaway_sent();
     let bound = size as usize;
-    if u <= bound {
+    if u.max(u2.unwrap_or(0)) <= bound {
         if !delivered || goaway.is_some() {
             v.push(("C14.local-table-size".to_string(), "legal-update-rejected:client".to_string(), format!("{}: the update is within the bound in force ({}), yet the response was not delivered (GOAWAY {:?}, connection {:?})", label, bound, goaway, t.conn_result)));
         }
@@ -600,28 +606,33 @@ pub fn local_table_size_client_one(size: u32, u: usize, verbose: bool) -> Vec<(S
 }
 
 pub fn local_table_size_sweep(out: &mut Outcome, vios: &mut VioSet) {
-    // (size, u, acked, client subject)
-    let mut jobs: Vec<(u32, usize, bool, bool)> = vec![];
+    // (size, u, second update in the same block, acked, client subject)
+    let mut jobs: Vec<(u32, usize, Option<usize>, bool, bool)> = vec![];
     for client in [false, true] {
         for size in [0u32, 100, 4096, 8192, 65_536] {
             for u in [0usize, 1, 30, 31, 100, 101, 4096, 4097, 8192, 8193, 65_536, 65_537] {
                 // (the T2 handshake acknowledges the subject's initial SETTINGS, so only the acknowledged situation can be set up;
                 // the 'not before the acknowledgement' half is covered for windows by the X2 model)
-                jobs.push((size, u, true, client));
+                jobs.push((size, u, None, true, client));
+            }
+            // two updates in a row (RFC 7541 4.2: the smallest size, then the final one): each of them is held against the bound
+            let z = size as usize;
+            for (a, b) in [(0, z), (z, 0), (z / 2, z), (0, z + 1), (z + 1, 0), (z + 1, z)] {
+                jobs.push((size, a, Some(b), true, client));
             }
         }
     }
     let found = std::sync::Mutex::new(vec![]);
     par_for(jobs.len(), |i| {
-        let (size, u, acked, client) = jobs[i];
-        let vs = if client { local_table_size_client_one(size, u, false) } else { local_table_size_one(size, u, acked, false) };
+        let (size, u, u2, acked, client) = jobs[i];
+        let vs = if client { local_table_size_client_one(size, u, u2, false) } else { local_table_size_one(size, u, u2, acked, false) };
         if !vs.is_empty() {
             found.lock().unwrap().push((jobs[i], vs));
         }
     });
-    for ((size, u, acked, client), vs) in found.into_inner().unwrap() {
+    for ((size, u, u2, acked, client), vs) in found.into_inner().unwrap() {
         for (rule, sig, what) in vs {
-            vios.add(Violation { rule, signature: sig, what, replay: json!({"harness": "c14.table", "size": size, "u": u, "acked": acked, "client": client}) });
+            vios.add(Violation { rule, signature: sig, what, replay: json!({"harness": "c14.table", "size": size, "u": u, "u2": u2, "acked": acked, "client": client}) });
         }
     }
     out.harness("local-header-table-size sweep", json!({"cases": jobs.len(), "server_subject": jobs.len() / 2, "client_subject": jobs.len() / 2}));
@@ -674,7 +685,8 @@ pub fn replay(v: &serde_json::Value) -> Option<bool> {
     let h = v["harness"].as_str().unwrap_or("");
     if h == "c14.table" {
         let (size, u) = (v["size"].as_u64().unwrap_or(0) as u32, v["u"].as_u64().unwrap_or(0) as usize);
-        let vs = if v["client"].as_bool().unwrap_or(false) { local_table_size_client_one(size, u, true) } else { local_table_size_one(size, u, v["acked"].as_bool().unwrap_or(true), true) };
+        let u2 = v["u2"].as_u64().map(|x| x as usize);
+        let vs = if v["client"].as_bool().unwrap_or(false) { local_table_size_client_one(size, u, u2, true) } else { local_table_size_one(size, u, u2, v["acked"].as_bool().unwrap_or(true), true) };
         for (r, _, w) in &vs {
             println!("RULE VIOLATED: {} {}", r, w);
         }
